@@ -48,7 +48,10 @@ def scan(chk, r, cases, ratios, max_pto):
                 Q2 = float(ratio * MH * MH)
                 d = {}
                 for fns in ("FFNS", "FFN0"):
-                    out = realrun.run(cards.theory(PTO=pto_here, FNS=fns, IC=opts.get("ic", 1), **th_kw), cards.obs({name: [dict(x=x, Q2=Q2)]}, prDIS=process, ProjectileDIS=proj, interpolation_xgrid=grid))
+                    # evolution order above the order of the coefficient functions: FFN0 then builds one more
+                    # logarithmic tower, which must not contribute below its own order
+                    pto_kw = dict(PTO=pto_here) if "pto_evol" not in opts else dict(PTO=opts["pto_evol"], PTODIS=pto_here)
+                    out = realrun.run(cards.theory(FNS=fns, IC=opts.get("ic", 1), **pto_kw, **th_kw), cards.obs({name: [dict(x=x, Q2=Q2)]}, prDIS=process, ProjectileDIS=proj, interpolation_xgrid=grid, interpolation_is_log=not opts.get("linear", False)))
                     d[fns] = contracted(out, name, pdf)
                 for k in d["FFNS"]:
                     if k[2] == 0 and k[3] == 0:
@@ -79,7 +82,7 @@ def scan(chk, r, cases, ratios, max_pto):
             abs_ok = abs(d1) <= abs(d0) * (r0 / r1) ** 0.6 and s1 <= s0 * (r0 / r1) ** 0.6
             ok = e1 <= bound or abs_ok
             d0 = e0
-            sample = dict(obs=name, process=process, projectile=proj, IC=opts.get("ic", 1), order=list(k), x=x, series=[(a, b, c) for a, b, c in ser], rel_first=e0, rel_last=e1, bound=bound)
+            sample = dict(obs=name, process=process, projectile=proj, IC=opts.get("ic", 1), PTO_evolution=opts.get("pto_evol", pto_here), interpolation_is_log=not opts.get("linear", False), order=list(k), x=x, series=[(a, b, c) for a, b, c in ser], rel_first=e0, rel_last=e1, bound=bound)
             chk.search_case("ffns_minus_ffn0_decays", ok, what=f"{name} {process} order {k[0]}: FFNS-FFN0 does not vanish like a power of m2/Q2", data=sample, sample=sample, nontrivial=abs(d0) > floor)
 
 
@@ -134,7 +137,12 @@ def run(tier):
         # heavy-quark loops first appear at a_s^2)
         extra = [("EM", "F2", "charm", "electron", dict(ic=0, x=0.1)), ("CC", "F3", "charm", "neutrino", dict(ic=0, x=0.1)), ("EM", "F2", "light", "electron", dict(pto=2, small_grid=True, x=0.1)), ("NC", "F2", "light", "electron", dict(pto=2, small_grid=True, x=0.3)),
                  # the a_s^2 massive coefficients with the axial coupling exist only with Z exchange (NC), FL has its own set
-                 ("NC", "FL", "charm", "electron", dict(pto=2, small_grid=True, x=0.1)), ("NC", "F2", "bottom", "positron", dict(pto=2, small_grid=True, x=0.1))]
+                 ("NC", "FL", "charm", "electron", dict(pto=2, small_grid=True, x=0.1)), ("NC", "F2", "bottom", "positron", dict(pto=2, small_grid=True, x=0.1)),
+                 # evolution at a_s^3 with coefficient functions at a_s^2 (one more asymptotic tower is built);
+                 # interpolation linear in x (the heavy-quark initiated matching term is the only coefficient
+                 # with a plus distribution and no regular part)
+                 ("EM", "F2", "charm", "electron", dict(pto=2, pto_evol=3, small_grid=True, x=0.1)),
+                 ("EM", "F2", "charm", "electron", dict(linear=True, x=0.3)), ("CC", "F3", "charm", "neutrino", dict(linear=True, x=0.1))]
         scan(chk, r, quick_cases + special + extra, [1e2, 1e4], 1)
     chk.level = "proof"
     chk.assumptions += [
